@@ -298,4 +298,35 @@ theorem utf16le_injective : ∀ (a b : List Char), utf16le a = utf16le b → a =
       obtain ⟨h1, h2⟩ := utf16Char_prefix c d _ _ h
       rw [h1, ih r' h2]
 
+/-! ### key derivation -/
+
+theorem spin_eq_fold (H : List Nat → List Nat) : ∀ n i key,
+    spin H n i key = (List.range' i n).foldl (fun k j => H (le32b j ++ k)) key := by
+  intro n
+  induction n with
+  | zero => intro _ _; rfl
+  | succ m ih => intro i key; simp only [spin, List.range'_succ, List.foldl_cons, ih]
+
+theorem spin_eq_spec (H : List Nat → List Nat) (n : Nat) (key : List Nat) :
+    spin H n 0 key = specIterate H n key := by
+  rw [spin_eq_fold, specIterate, List.range_eq_range']
+
+/-- every round of the iteration is injective when the hash is -/
+theorem spin_injective (H : List Nat → List Nat) (hH : Function.Injective H) : ∀ n i a b,
+    spin H n i a = spin H n i b → a = b := by
+  intro n
+  induction n with
+  | zero => intro _ a b h; exact h
+  | succ m ih =>
+    intro i a b h
+    simp only [spin] at h
+    exact List.append_cancel_left (hH (ih (i + 1) _ _ h))
+
+theorem standardHFinal_injective (H : List Nat → List Nat) (hH : Function.Injective H) (salt a b : List Nat)
+    (h : standardHFinal H salt a = standardHFinal H salt b) : a = b := by
+  unfold standardHFinal at h
+  have h1 := List.append_cancel_right (hH h)
+  have h2 := hH (spin_injective H hH _ _ _ _ h1)
+  exact List.append_cancel_left h2
+
 end XlModel.Crypt
